@@ -20,7 +20,9 @@ EXPLANATION = (
 )
 RULE_TEXT = (
     "C10.a earlier/later pairs O3..O9 hold in the extracted stage order; C10.b side-channel keys read subset of keys "
-    "written, nested-holder keys are searched for; C10.c bootstrap(CREATE DATABASE) == bootstrap(connect)."
+    "written, nested-holder keys are searched for; C10.c bootstrap(CREATE DATABASE) == bootstrap(connect); C10.d operand "
+    "wiring: stage(abstract input with symbolic operands) matches the documented product shape (slot, default, "
+    "rejection, unchanged); C10.e EQUAL_NULL macro body three-valued over {NULL,x,y}^2."
 )
 TRUSTED = ["CPython ast", "sqlglot Expression.transform visits pre-order and prunes below a replaced node",
            "order obligations table (DESIGN appendix B), each with its reason"]
